@@ -1,6 +1,6 @@
 (* C06 property theorems. Nothing but statements closed by [exact]. *)
 From OIDC Require Import Lib Base64 Base64_proofs Cipher C02_Jws C01_Verifier C02_Verifiers
-     C06_Token C06_spec C06_proofs C06_model_proofs.
+     C06_Token C06_Grant C06_spec C06_proofs C06_model_proofs C06_history_proofs.
 
 (* The provider's readers (userinfo/introspection, revocation, token exchange;
    after fix F15) return exactly (token id, subject) for the opaque token made
@@ -191,3 +191,89 @@ Theorem C06_spec_model_rotation_nonvacuous :
                  /\ i_addr ic = "").
 Proof. exact spec_model_rotation_nonvacuous. Qed.
 Print Assumptions C06_spec_model_rotation_nonvacuous.
+
+(* ---- round 11: histories of requests on one grant; requests without an authentication time ---- *)
+
+(* The refresh_token grant at the END OF ANY HISTORY of refresh requests on one grant (g0 = the
+   scopes of the authorization; every earlier request with its scope parameter, made by the
+   grant's client or by another one; accepted requests rotate the token, which then stands for
+   the narrowed scopes): whatever is issued is for scopes of the original authorization; a
+   scope parameter is honoured exactly; without one the scopes are what the presented token
+   stands for. *)
+Theorem C06_refresh_within_grant :
+  forall g0 earlier requested s,
+    refresh_scopes g0 earlier requested = Some s ->
+    incl s g0
+    /\ (requested <> [] -> s = requested)
+    /\ (requested = [] -> s = grant_after g0 earlier).
+Proof. exact refresh_within_grant. Qed.
+Print Assumptions C06_refresh_within_grant.
+
+(* A refused request - another client presents the token, or a scope beyond what the token
+   stands for is asked (ValidateRefreshTokenScopes sets nothing before every scope is checked) -
+   can be struck from any history: the grant, and the outcome of every later request, are the
+   same as if it had never been made.  (Also for a storage that hands out its live record.) *)
+Theorem C06_refused_request_leaves_grant :
+  forall g0 pre e post requested,
+    (e_owner e = false \/ validate_refresh_scopes (e_scopes e) (grant_after g0 pre) = None) ->
+    grant_after g0 (pre ++ e :: post) = grant_after g0 (pre ++ post)
+    /\ refresh_scopes g0 (pre ++ e :: post) requested = refresh_scopes g0 (pre ++ post) requested.
+Proof. exact refused_request_leaves_grant. Qed.
+Print Assumptions C06_refused_request_leaves_grant.
+
+(* ... and the modelled response at the end of a history: response scope, stored scopes, the
+   user claims and the custom claims of its ID token all belong to scopes of the authorization. *)
+Theorem C06_refreshed_tokens_within_grant :
+  forall g0 earlier requested c r k,
+    is_exchange (cs_flow c) = false ->
+    model (IRefreshed g0 earlier requested c) = OResp r k ->
+    incl (r_scope r) g0
+    /\ (forall id e sc, k_stored k = Some (id, e, sc) -> incl sc g0)
+    /\ (forall j ic, r_id r = Some (j, ic) ->
+          (i_name ic <> "" \/ i_username ic <> "" -> In "profile" g0)
+          /\ (i_email ic <> "" \/ i_email_verified ic = true -> In "email" g0)
+          /\ (i_phone ic <> "" \/ i_phone_verified ic = true -> In "phone" g0)
+          /\ (i_addr ic <> "" -> In "address" g0)
+          /\ (forall x, In x (i_extra ic) -> In ("custom:" ++ fst x)%string g0)).
+Proof. exact refreshed_tokens_within_grant. Qed.
+Print Assumptions C06_refreshed_tokens_within_grant.
+
+(* the property predicate (whose "granted" is RFC 6749 section 6 read on the history: refused
+   requests count for nothing) holds of the model at the end of every history *)
+Theorem C06_spec_model_refreshed :
+  forall g0 earlier requested c,
+    (forall s, refresh_scopes g0 earlier requested = Some s -> wf (with_scopes c s) = true) ->
+    spec (IRefreshed g0 earlier requested c) (model (IRefreshed g0 earlier requested c)) = true.
+Proof. exact spec_model_refreshed. Qed.
+Print Assumptions C06_spec_model_refreshed.
+
+Theorem C06_refresh_history_nonvacuous :
+  (ex_beyond = mkEarlier true ["openid"; "email"; "phone"] /\ ex_other = mkEarlier false ["openid"]
+   /\ ex_g0 = ["openid"; "profile"; "offline_access"])
+  /\ refresh_scopes ex_g0 [ex_beyond; ex_other] [] = Some ex_g0
+  /\ refresh_scopes ex_g0 [ex_beyond; ex_narrow] [] = Some ["openid"; "offline_access"]
+  /\ refresh_scopes ex_g0 [ex_narrow] ["profile"] = None
+  /\ wf (with_scopes ex_refresh_case ex_g0) = true
+  /\ (exists r k, model (IRefreshed ex_g0 [ex_beyond; ex_other] [] ex_refresh_case) = OResp r k
+                  /\ r_scope r = ex_g0
+                  /\ exists j ic, r_id r = Some (j, ic) /\ i_name ic = "Alice" /\ i_email ic = "")
+  /\ model (IRefreshed ex_g0 [ex_narrow] ["profile"] ex_refresh_case) = ONoTokens 400.
+Proof. exact refresh_history_nonvacuous_all. Qed.
+Print Assumptions C06_refresh_history_nonvacuous.
+
+(* A request that records no authentication (GetAuthTime() is Go's zero time) never yields an
+   ID token that asserts one: auth_time is absent (skew 0) or that zero time moved by the skew -
+   nothing after the Unix epoch, in particular never the time of issuance.  A recorded
+   authentication time is asserted as it is, moved by the skew. *)
+Theorem C06_auth_time_only_from_request :
+  forall (H : hkind -> string -> list nat) (E : list nat -> list nat)
+         issuer f cl kat kid u rq state ids en now j ic,
+    r_id (create_token_response H E issuer f cl kat kid u rq state ids en now) = Some (j, ic) ->
+    is_exchange f = false ->
+    (rq_auth_time rq = 0%Z ->
+       (cl_skew cl = 0%Z -> i_auth_time ic = 0%Z)
+       /\ (i_auth_time ic = 0%Z \/ i_auth_time ic = (zero_unix - cl_skew cl)%Z)
+       /\ ((zero_unix <= cl_skew cl)%Z -> (i_auth_time ic <= 0)%Z /\ (0 < i_iat ic -> i_auth_time ic < i_iat ic)%Z))
+    /\ (rq_auth_time rq <> 0%Z -> i_auth_time ic = (rq_auth_time rq - cl_skew cl)%Z).
+Proof. exact auth_time_only_from_request. Qed.
+Print Assumptions C06_auth_time_only_from_request.
